@@ -11,11 +11,15 @@ type q = t1model.Q
 // subrTable collects the Subrs array of the font being produced.
 type subrTable struct {
 	needed bool
-	extra  [][]byte // plain bodies of Subrs 4, 5, ...
+	holes  bool     // leave an unset array element before every subroutine (as subsetters do)
+	extra  [][]byte // plain bodies of Subrs 4, 5, ...; nil = element left unset
 }
 
 func (t *subrTable) add(body []tok) int {
 	t.needed = true
+	if t.holes {
+		t.extra = append(t.extra, nil)
+	}
 	t.extra = append(t.extra, encodeToks(body))
 	return 4 + len(t.extra) - 1
 }
